@@ -243,7 +243,7 @@ Proof.
   intros. unfold d_check_read. destruct (dm_find d v); [|cbn; tauto].
   repeat match goal with |- context[if ?x then _ else _] => destruct x end; cbn; tauto.
 Qed.
-Lemma d_check_quiet_range : forall d pre s, In (d_check_quiet d pre s) [0; 9; 10].
+Lemma d_check_quiet_range : forall d pre s, In (d_check_quiet d pre s) [0; 9; 10; 14].
 Proof.
   intros. unfold d_check_quiet.
   repeat match goal with |- context[if ?x then _ else _] => destruct x end; cbn; tauto.
@@ -258,7 +258,7 @@ Qed.
 Section ASM.
   Variable M : list Z.
   Hypothesis HR : forall r, In r [1; 2; 3; 4; 5; 6; 7; 8] -> ~ In r M -> read_rule_ok r.
-  Hypothesis HQ : forall r, In r [9; 10] -> ~ In r M -> quiet_rule_ok r.
+  Hypothesis HQ : forall r, In r [9; 10; 14] -> ~ In r M -> quiet_rule_ok r.
 
   Lemma quiet_point_allowed : forall c s1, cfg_wf c = true -> Disc c s1 ->
     quiescent step thrs stim (run step (init_of c) s1) = true ->
@@ -311,7 +311,7 @@ Definition final_ok (c : cfg) (sched : list thr) : Prop :=
 
 Lemma monitor_model_gen : forall M,
   (forall r, In r [1; 2; 3; 4; 5; 6; 7; 8] -> ~ In r M -> read_rule_ok r) ->
-  (forall r, In r [9; 10] -> ~ In r M -> quiet_rule_ok r) ->
+  (forall r, In r [9; 10; 14] -> ~ In r M -> quiet_rule_ok r) ->
   forall c sched fin, cfg_wf c = true -> nonneg (c_ntypes c) = true -> Disc c sched ->
   (fin = 0 \/ (fin = 5 /\ final_ok c sched)) ->
   allowed M (monitor_case (wire_of_run c sched fin)).
